@@ -654,6 +654,39 @@ $GEN{$NGen(a int)}{int}{
 	$YIELD{g(a)}
 	$RET
 }`, entries: []*Entry{drive("$NGen", "int", 1, nil)}},
+	// callee expressions that are not names: a func-typed field, an element of a slice of funcs, a dereferenced pointer to a func,
+	// a method expression, the result of a call - each re-assigned between the creation of the closure and its call
+	{name: "eta-callee-is-field-index-deref-or-call-result", tags: []string{"eta-shape"}, decls: byGen + `
+type $NH struct{ f func(int) int }
+
+type $NM struct{ k int }
+
+func (m $NM) Add(x int) int { return x + m.k }
+
+func $NPick(n *int) func(int) int {
+	*n++
+	tr.Ev(1, *n)
+	return func(x int) int { return x + *n }
+}
+
+func $NB(a int) int {
+	inc := func(x int) int { return x + 1 }
+	dbl := func(x int) int { return x * 2 }
+	h := $NH{f: inc}
+	fs := []func(int) int{inc, dbl}
+	pf := &inc
+	calls := 0
+	g1 := func(x int) int { return h.f(x) }
+	g2 := func(x int) int { return fs[0](x) }
+	g3 := func(x int) int { return (*pf)(x) }
+	g4 := func(m $NM, x int) int { return $NM.Add(m, x) }
+	g5 := func(x int) int { return $NPick(&calls)(x) }
+	h.f = dbl
+	fs[0] = dbl
+	pf = &dbl
+	tr.Ev(2, calls)
+	return g1(a) + 10*g2(a) + 100*g3(a) + 1000*g4($NM{3}, a) + 10000*g5(a) + 100000*g5(a)
+}`, entries: []*Entry{callEntry("$NB", 1, nil)}},
 	// closures whose type differs from the callee's: unnamed parameters, a wider result type, a variadic parameter handed on as a slice
 	{name: "eta-literal-type-differs-from-callee", tags: []string{"eta-shape"}, decls: byGen + `
 func $NZero() int            { return 40 }
